@@ -28,6 +28,8 @@ def gen_terms(task):
         return list(G.const_leaf_terms(W))
     elif kind == "d3":
         it = depth3_terms(triple, W)
+    elif kind == "d2c":
+        return list(G.const_inner_terms(triple[:2], W))
     return [t for t in it if canonical(t, triple, base)]
 
 
@@ -84,6 +86,8 @@ def run(rep):
     for tr in itertools.product(G.shapes(W2), repeat=3):
         tasks.append(("d2", W2, tr, {"inner_rich": not rep.quick, "outer_rich": False}))
     tasks.append(("const", 3, ((0, False),) * 3, {}))
+    for pair in itertools.product(G.shapes(rep.pick(2, 3)), repeat=2):
+        tasks.append(("d2c", 3, pair + ((0, False),), {}))
     W3 = rep.pick(2, 3)
     for tr in itertools.product(G.shapes(W3), repeat=3):
         tasks.append(("d3", W3, tr, {}))
